@@ -230,6 +230,9 @@ def runModelled : List String := [
   "if s.httpServer != nil {",
   "  return fmt.Errorf(\"server is already running, run shutdown first\")",
   "}",
+  "if s.stopped {",
+  "  return nil",
+  "}",
   "hs := &http.Server{ Addr: s.conf.HTTP.Addr, ReadHeaderTimeout: 5 * time.Second, Handler: httplog.New(s, s.log, LogTrace), }",
   "s.httpServer = hs",
   "if ctx != nil {",
@@ -252,6 +255,7 @@ def shutdownModelled : List String := [
   "s.mu.Lock()",
   "defer s.mu.Unlock()",
   "if s.httpServer == nil {",
+  "  s.stopped = true",
   "  return fmt.Errorf(\"server is not running\")",
   "}",
   "err := s.httpServer.Shutdown(ctx)",
